@@ -18,17 +18,19 @@ def plan(tier, seed):
     chunks = sweep.shape_chunks(specs, per_chunk=6, kind='single')
     pool_n = 3
     chunks += [{'kind': 'pairs', 'n': pool_n, 'mod': 16, 'rem': i} for i in range(16)]
+    chunks += [{'kind': 'wide', 'L': L} for L in (5, 6, 7, 9)]
     return {
-        'chunks': chunks,
+        'chunks': chunks + [{'kind': 'clipipe-grammar'}],
         'rule': 'treebanks of one tree (every hierarchy over n tokens, <= u unary, x every labelling of the '
-                'constituents from {A,B}) and of two trees (every ordered pair from the pool of all labelled '
+                'constituents from {A,B}), of one node with 5, 6, 7 or 9 children (size probes: equal, equal-in-the-middle and alternating tags) and of two trees (every ordered pair from the pool of all labelled '
                 'shapes n <= %d), so that the same rule recurs under different parents; grammars: treebank, '
                 'leftright, optimal x {deterministic, Markov v,h in 0..3 x nofanout}; the same grammars after a trip through their RCG files (tool writer + tool reader, then binarized) and as decoded from the LoPar file when it is written. Oracle: per-label count sums '
                 '= node counts, flow conservation for every symbol. non-trivial = distinct (treebank, mode) cases '
                 'in which some rule is observed more than once' % pool_n,
         'bound': ', '.join('n=%d:u<=%d' % s for s in specs) + '; pairs from n <= %d' % pool_n,
         'exhaustive': True,
-        'assumptions': ['counts of a rule = sum over its vertical contexts',
+        'assumptions': ['driver differential (vt/clipipe.py): `treetools grammar` in 11 type / Markov / format / prefix combinations on a six-sentence treebank (same rule under contexts that differ at depth 1 and in fan-out only, one production with two linearizations, a five-child node with equal middle labels) must write, under the prefix given, what extraction + binarization + writer give through the library',
+                        'counts of a rule = sum over its vertical contexts',
                         'two-tree treebanks are extracted incrementally: the grammar is binarized once after the first tree, then again after the second'],
     }
 
@@ -184,6 +186,9 @@ def check_files(mtjs):
 
 
 def check_case(case):
+    if 'grammar_run' in case:
+        from .. import clipipe
+        return clipipe.replay_grammar(case)
     with quiet():
         if case.get('files'):
             return check_files(case['bank'])
@@ -191,6 +196,11 @@ def check_case(case):
 
 
 def run_chunk(chunk):
+    if chunk.get('kind') == 'clipipe-grammar':
+        from .. import clipipe
+        res = Result()
+        clipipe.run_grammar(res)
+        return res
     res = Result()
     cfgs = [None] + configs('thorough')
 
@@ -210,7 +220,17 @@ def run_chunk(chunk):
         for v in vs:
             res.violation(v['kind'], v['where'], v['case'], v['detail'], v['what'])
     with quiet():
-        if chunk['kind'] == 'single':
+        if chunk['kind'] == 'wide':
+            # size probes: one node with L children, all tags equal / equal in the middle / alternating
+            L = chunk['L']
+            for pos in (['x'] * L, ['d'] + ['x'] * (L - 2) + ['n'], ['x' if i % 2 else 'y' for i in range(L)]):
+                for nested in (False, True):
+                    kids = tuple(range(1, L + 1))
+                    root = ('VROOT', '--', (('A', '--', kids),)) if nested else ('VROOT', '--', kids)
+                    mt = model.MT(1, model.mk_tokens(L, words=['w'] * L, pos=pos), root)
+                    do([mt])
+            res.sample({'treebank': [model.mt_str(mt.root, mt.toks)], 'modes': len(cfgs)})
+        elif chunk['kind'] == 'single':
             mt = None
             for sh, k in sweep.iter_shapes(chunk):
                 for mt in labelings(sh):
